@@ -15,6 +15,7 @@ import random
 import re
 import sys
 import types
+import zlib
 
 from ginverif import core
 
@@ -76,8 +77,9 @@ LIT_POOL = [
 ]
 # ... and values with no literal form (must be omitted from config strings, never printed)
 def _nonlit_pool():
-  return [float('inf'), float('-inf'), float('nan'), {1, 2}, 1 + 2j, object(), frozenset([3]), _NT(1, 2),
-          range(3), [1, {2, 3}], {'k': float('inf')}, (1, object()), collections.OrderedDict(a=1), len]
+  # (every value here survives copy.deepcopy recognisably: no bare object() instances)
+  return [float('inf'), float('-inf'), float('nan'), {1, 2}, 1 + 2j, NonLit('pool-object'), frozenset([3]), _NT(1, 2),
+          range(3), [1, {2, 3}], {'k': float('inf')}, (1, len), collections.OrderedDict(a=1), len]
 
 
 def _vkey(x):
@@ -711,7 +713,8 @@ def compare_state(want, got, fields=ALL_FIELDS):
 def replay(beh, fields=ALL_FIELDS, at_end=None):
   """Steps one exported GinCore behaviour through the real gin.
   Returns None if the code conforms, else a dict describing the first divergence."""
-  world = World(beh[0]['reg'])
+  # literal pools are seeded from the behaviour itself, so that a replay file reproduces exactly
+  world = World(beh[0]['reg'], pool_seed=zlib.crc32(core.jdump([s['out'] for s in beh[:4]]).encode()) + core.seed())
   try:
     for i, st in enumerate(beh):
       o = st['out']
